@@ -15,10 +15,13 @@ def run(tier: str, seed: int):
         serial = list(F.fam_faults(1, 3, max_faults=2, kinds=('raise',))) + list(F.fam_limits(1, 3, batch=1))
         rule = 'n<=4 shapes x faults (raise|died) x continue_on_failure; type limits incl. max_parallel=1 with empty polls; pre-cached subsets'
         e3c = list(F.fam_e3(list(F.fam_faults(1, 3, max_faults=1, reqs='sinks')) + list(F.fam_limits(1, 3, tnames=('TA', 'TB'), faults=True)), workers=(1, 2), die_exit0=(False, True)))
+        # default displays (progress bars + task monitor) switched on
+        e3c += list(F.fam_e3(F.fam_faults(2, 3, max_faults=1, reqs='all'), workers=(1, 2), backends=('fork',), monitor=True, liveness=False))
     else:
         cfgs = (list(F.fam_faults(1, 4, max_faults=2, reqs='subsets', batch=3)) + list(F.fam_faults(5, 5, max_faults=1, reqs='sinks'))
                 + list(F.fam_limits(1, 4, batch=3, faults=True, stutter=True, tnames=('TA', 'TB', 'TC', 'TD'))) + list(F.fam_shapes(1, 5, batch=2)))
         serial = list(F.fam_faults(1, 4, max_faults=2, kinds=('raise',))) + list(F.fam_limits(1, 4, batch=1))
         rule = 'n<=5; fault sets <=2; limits {None,1,2,3}; stutter'
-        e3c = list(F.fam_e3(list(F.fam_faults(1, 3, max_faults=2)) + list(F.fam_limits(1, 3, tnames=('TA', 'TB', 'TC'), faults=True)), workers=(1, 2, None), die_exit0=(False, True))) + list(F.fam_e3(F.fam_faults(4, 4, max_faults=1, reqs='sinks'), workers=(1, 2), liveness=False))
+        e3c = list(F.fam_e3(F.fam_faults(2, 3, max_faults=1, reqs='all'), workers=(1, 2), monitor=True, liveness=False))
+        e3c += list(F.fam_e3(list(F.fam_faults(1, 3, max_faults=2)) + list(F.fam_limits(1, 3, tnames=('TA', 'TB', 'TC'), faults=True)), workers=(1, 2, None), die_exit0=(False, True))) + list(F.fam_e3(F.fam_faults(4, 4, max_faults=1, reqs='sinks'), workers=(1, 2), liveness=False))
     return run_e2_property('C11', tier, seed, cfgs, serial_configs=serial, e3_configs=e3c, real_cases=list(F.fam_real(F.real_bases('faults') + F.real_bases('limits'), workers=(1, 2))), rule=rule, assumptions=ASSUME)
